@@ -501,9 +501,48 @@ let split_op (l : string) : string * string =
   | Some i -> (String.sub l 0 i, String.trim (String.sub l (i + 1) (String.length l - i - 1)))
   | None -> (l, "")
 
+(* per-type decoder ops (DH, DO, DF, DT, DV, DQ, DS): `<value> <consumed>` | ERR | PANIC,
+   consumed = length of the input - length of the remaining slice *)
+let run_rd buf (dec : 'a rd) (pr : Buffer.t -> 'a -> unit) (hex : string) : unit =
+  let input = bytes_of_hex_fast hex in
+  match dec input with
+  | Ok (v, rest) ->
+      pr buf v;
+      sp buf;
+      Buffer.add_string buf (string_of_int (List.length input - List.length rest))
+  | Err -> Buffer.add_string buf "ERR"
+  | Panic -> Buffer.add_string buf "PANIC"
+
+let v_large_flag (s : string) : fileSizeFlag =
+  match s with "0" -> FileSizeFlag_Small | "1" -> FileSizeFlag_Large | _ -> failwith ("codec: <large> must be 0/1: " ^ s)
+
+let v_seg_flag (s : string) : segmentedData =
+  match s with
+  | "0" -> SegmentedData_NotPresent
+  | "1" -> SegmentedData_Present
+  | _ -> failwith ("codec: <seg> must be 0/1: " ^ s)
+
 let run_op buf (l : string) : unit =
   let op, arg = split_op l in
   (match op with
+  | "DH" -> run_rd buf header_decode add_hdr arg
+  | "DO" -> (
+      match split_ws arg with
+      | [ large; hex ] ->
+          run_rd buf (operations_decode (v_large_flag large)) (fun buf o -> add_payload buf (Pl_Directive o)) hex
+      | _ -> failwith ("codec: bad op " ^ l))
+  | "DF" -> (
+      match split_ws arg with
+      | [ seg; large; hex ] ->
+          run_rd buf
+            (file_data_decode (v_seg_flag seg) (v_large_flag large))
+            (fun buf d -> add_payload buf (Pl_FileData d))
+            hex
+      | _ -> failwith ("codec: bad op " ^ l))
+  | "DT" -> run_rd buf tlv_decode add_tlv arg
+  | "DV" -> run_rd buf varid_decode add_id arg
+  | "DQ" -> run_rd buf fs_request_decode add_fsq arg
+  | "DS" -> run_rd buf fs_response_decode add_fsr arg
   | "E" ->
       let p = v_pdu (parse_sx arg) in
       add_hex buf (pdu_encode p);
